@@ -715,4 +715,9 @@ def run(ctx):
     # the mapping list is built from the whole memory map (same rule instance as C13/whole-map-read)
     from rules import c13 as _c13w
     _c13w.rule_whole_map_read(ctx, R="C06/whole-map-read")
+    # shared infrastructure this property leans on (rules/families.py): each member is the same rule instance as in its home property
+    from rules import families as _fam
+    _fam.reader(ctx, "C06")
+    _fam.mapping_list(ctx, "C06")
+    _fam.thread_list(ctx, "C06")
 
